@@ -77,13 +77,15 @@ func c19Case(c *explore.Ctx, s *explore.SubStats, text string) {
 	// the same JSON value in other spellings: indented, and re-encoded by a generic JSON
 	// processor (object keys in another order) — what a store or a proxy does to it
 	if c19Respell {
-		for _, form := range []string{"indented", "generic"} {
+		for _, form := range []string{"indented", "generic", "generic-nulls-dropped", "into-used-target"} {
 			var p3, st string
 			r := guarded(0, 0, func() {
 				var b []byte
 				var err error
 				if form == "indented" {
 					b, err = json.MarshalIndent(d, "", "  ")
+				} else if form == "into-used-target" {
+					b, err = json.Marshal(d)
 				} else {
 					b, err = json.Marshal(d)
 					if err == nil {
@@ -91,6 +93,9 @@ func c19Case(c *explore.Ctx, s *explore.SubStats, text string) {
 						dec := json.NewDecoder(strings.NewReader(string(b)))
 						dec.UseNumber()
 						if err = dec.Decode(&generic); err == nil {
+							if form == "generic-nulls-dropped" {
+								generic = dropNulls(generic)
+							}
 							b, err = json.Marshal(generic)
 						}
 					}
@@ -100,6 +105,15 @@ func c19Case(c *explore.Ctx, s *explore.SubStats, text string) {
 					return
 				}
 				var d3 ast.QueryDocument
+				if form == "into-used-target" {
+					// a target that held another document before (decoders reuse what they are given)
+					prev, _ := parser.ParseQuery(&ast.Source{Name: "prev", Input: c19UsedTarget})
+					pb, _ := json.Marshal(prev)
+					if e := json.Unmarshal(pb, &d3); e != nil {
+						st = "unmarshal (previous document): " + e.Error()
+						return
+					}
+				}
 				if err := json.Unmarshal(b, &d3); err != nil {
 					st = "unmarshal: " + err.Error()
 					return
@@ -329,4 +343,30 @@ func runC19(c *explore.Ctx) {
 		}
 		s.WallS = time.Since(t0).Seconds()
 	}
+}
+
+// c19UsedTarget: what a re-used decoding target held before: operations and fragments with
+// variable definitions, directives, arguments and nested selections at the first indices.
+const c19UsedTarget = `query Old ( $o : Int = 1 @od ) @live ( x : 1 ) { old ( a : 1 ) @od { deep ( b : 2 ) ... OF ... on OT @od { x } } second } mutation OldM ( $m : Int ) @live { m } fragment OF ( $fv : Int ) on OT @od { of ( c : 3 ) { g } } fragment OG on OT { og }`
+
+// dropNulls removes object members whose value is null (what an omit-null serialiser or a
+// document store does to the encoding).
+func dropNulls(v any) any {
+	switch x := v.(type) {
+	case map[string]any:
+		for k, e := range x {
+			if e == nil {
+				delete(x, k)
+			} else {
+				x[k] = dropNulls(e)
+			}
+		}
+		return x
+	case []any:
+		for i := range x {
+			x[i] = dropNulls(x[i])
+		}
+		return x
+	}
+	return v
 }
